@@ -106,6 +106,9 @@ def run(tier):
         fjobs = snapdrv.file_jobs(wd, sd, 14 if quick else 300, 1 if quick else 6)
         ntr, nsteps = (72, 9) if quick else (1500, 14)
         tjobs = [(wd, n, sd * 7919 + n, nsteps) for n in range(ntr)]
+        # all 64 (source bank, destination bank) pairs of a paged --move, both prefixes explicit, 8 per trace
+        pairs = [(a, b) for a in range(8) for b in range(8)]
+        tjobs += [(wd, ntr + j, sd * 7919 + ntr + j, 8, pairs[j::8]) for j in range(8)]
         a1 = pool.map_async(snapdrv.long_file_worker, ljobs, chunksize=2)
         a2 = pool.map_async(snapdrv.file_case_worker, fjobs, chunksize=2)
         a3 = pool.map_async(snapdrv.trace_worker, tjobs, chunksize=1)
